@@ -18,10 +18,10 @@ using app::Leaf; using app::Val; using app::Incoming;
 using undo_model::V; using undo_model::Model; using undo_model::Emit;
 
 enum { ST_RUNS, ST_OPS, ST_DISPATCHES, ST_SIM_MS, F_DELAYED_EVENT, F_CLOCK_ADV, F_OUT_OF_RANGE_VALUE, F_EXTREME_VALUE,
-       P_CLAMPED, P_CHANGED, P_UNDO_EVENTS, P_UNDO_MSG, P_REDO_MSG, P_AUTOMATION_MSG, P_MERGED, P_STRING_TRUNC, P_OPTION_SYMBOL, P_ARRAY_SET, P_SUBTREE_SET, P_QUERY, P_UNDO_CROSSES_AUTOMATION, P_EVICT, P_RESPELLED, ST_N };
+       P_CLAMPED, P_CHANGED, P_UNDO_EVENTS, P_UNDO_MSG, P_REDO_MSG, P_AUTOMATION_MSG, P_MERGED, P_STRING_TRUNC, P_OPTION_SYMBOL, P_ARRAY_SET, P_SUBTREE_SET, P_QUERY, P_UNDO_CROSSES_AUTOMATION, P_EVICT, P_RESPELLED, P_LONG_SPELLING, ST_N };
 static const char *STAT_NAMES[ST_N] = { "runs", "ops", "dispatches_checked", "sim_time_ms", "fault.undo_event_delivered_late", "fault.clock_advance", "fault.value_beyond_declared_bound", "fault.storage_type_extreme",
        "probe.value_clamped", "probe.value_changed", "probe.undo_events_emitted", "probe.undo_message_dispatched", "probe.redo_message_dispatched", "probe.automation_message_dispatched", "e2e.undo_events_merged",
-       "probe.string_truncated", "probe.option_set_by_symbol", "probe.array_element_set", "probe.subtree_parameter_set", "probe.query", "e2e.unused", "e2e.history_eviction", "probe.index_respelled_or_out_of_range" };
+       "probe.string_truncated", "probe.option_set_by_symbol", "probe.array_element_set", "probe.subtree_parameter_set", "probe.query", "e2e.unused", "e2e.history_eviction", "probe.index_respelled_or_out_of_range", "probe.address_longer_than_location_buffer" };
 
 enum { OP_SET = 0, OP_QUERY, OP_SEEK, OP_CLOCK, OP_HOST, OP_DELIVER };
 
@@ -68,7 +68,7 @@ struct NodeWorld : World {
             Op o; double u = pr.unit();
             int leaf = pr.chance(0.8) ? focus[pr.below(focus.size())] : (int)pr.below(L.size()); const Leaf &l = L[leaf];
             if (u < (undo_heavy ? 0.5 : 0.65)) {
-                o.kind = OP_SET; o.a[0] = leaf; if (prop != "C15" && pr.chance(0.06)) o.a[3] = 1 + (int64_t)pr.below(3);   // a[3]: 1 one leading zero, 2 two leading zeros, 3 index one past the end (with a leading zero half of the time)
+                o.kind = OP_SET; o.a[0] = leaf; if (prop != "C15" && pr.chance(0.06)) o.a[3] = 1 + (int64_t)pr.below(6);   // a[3]: 1 one leading zero, 2 two leading zeros, 3 index one past the end (with a leading zero half of the time), 4/5 the index plus 2^32 / 3*2^32 (no such element), 6 the index behind 240..400 zeros (longer than the location buffer)
                 switch (l.kind) {
                 case app::K_PARAM_C: case app::K_ARR_I: { bool isc = l.kind == app::K_PARAM_C; o.a[2] = isc ? 'c' : 'i'; int lo = atoi(l.mn), hi = atoi(l.mx); double s = pr.unit();
                     o.a[1] = s < 0.5 ? pr.range(lo, hi) : s < 0.8 ? pr.pick(std::vector<int64_t>{lo - 1, lo, lo + 1, hi - 1, hi, hi + 1}) : isc ? pr.pick(std::vector<int64_t>{-128, 127, 0, -1}) : pr.pick(std::vector<int64_t>{-128, 127, 0, -1, 128, 255, 256, 300, -129, -300, 65536 + 5, INT_MAX, INT_MIN});
@@ -172,7 +172,9 @@ struct NodeWorld : World {
                 if (op.kind == OP_SET && op.a[3] > 0) {   // respell the enumeration index of the address (first component that ends in digits and belongs to a '#N' port)
                     static const struct { const char *name; int n; } arrs[] = {{"/af24", 24}, {"/at12", 12}, {"/ao11", 11}, {"/subs12", 12}, {"/sub2s", 12}, {"/af", 4}, {"/ai", 5}, {"/at", 3}, {"/ao", 3}, {"/subs", 3}};
                     for (auto &ar : arrs) { size_t nl = strlen(ar.name); if (l.addr.compare(0, nl, ar.name)) continue; size_t e = nl; while (e < l.addr.size() && isdigit(l.addr[e])) e++; if (e == nl) continue;
-                        std::string rest = l.addr.substr(e); int v = (int)(op.a[3] % 4);
+                        std::string rest = l.addr.substr(e); int v = (int)(op.a[3] % 6);
+                        if (v == 0) { in.sent_addr = std::string(ar.name) + std::string(240 + (size_t)(op.a[1] & 0xff) % 161, '0') + l.addr.substr(nl, e - nl) + rest; in.may_refuse = true; stat_add(P_LONG_SPELLING); } else
+                        if (v >= 4) { unsigned long long big = strtoull(l.addr.substr(nl, e - nl).c_str(), nullptr, 10) + (v == 4 ? 1ull : 3ull) * 4294967296ull; in.sent_addr = std::string(ar.name) + std::to_string(big) + rest; in.expect_no_match = true; } else
                         if (v == 3) { in.sent_addr = std::string(ar.name) + ((op.a[1] & 1) ? "0" : "") + std::to_string(ar.n + (int)(op.a[1] & 2)) + rest; in.expect_no_match = true; }
                         else in.sent_addr = std::string(ar.name) + std::string(v, '0') + l.addr.substr(nl, e - nl) + rest;
                         stat_add(P_RESPELLED); break; } }
